@@ -1,6 +1,7 @@
 package main
 
 import (
+	"os"
 	"github.com/spf13/cobra"
 	"encoding/json"
 	"strings"
@@ -15,6 +16,7 @@ type exportIn struct {
 	Values []fmtValue `json:"values"` // null = nil slice
 	Execute bool      `json:"execute"` // the import side goes through ActionExecute on an embedded command (via "shell" only)
 	Via    string     `json:"via"`    // "export" (InvokedAction.export, keeps uid) | "shell" (value("export"), the `_carapace export` path)
+	EnvNospace string `json:"envNospace"` // CARAPACE_NOSPACE in the exporting process (via "shell"): the user's preference for his own shell, not part of what travels
 }
 
 func runExportRT(raw json.RawMessage) interface{} {
@@ -42,6 +44,10 @@ func runExportRT(raw json.RawMessage) interface{} {
 			setenvBool(k, false)
 		}
 		carapace.VerifSetMatch(false)
+		if in.EnvNospace != "" {
+			os.Setenv("CARAPACE_NOSPACE", in.EnvNospace)
+			defer os.Unsetenv("CARAPACE_NOSPACE")
+		}
 		doc = carapace.VerifValue(ia, "export", "")
 	} else {
 		b, err := carapace.VerifExportJSON(ia)
@@ -55,13 +61,17 @@ func runExportRT(raw json.RawMessage) interface{} {
 	}
 	json.Unmarshal([]byte(doc), &probe)
 	imported := invokeSafe(carapace.ActionImport([]byte(doc)), carapace.Context{})
+	// one imported Action value, used as the base of a derived action and then invoked itself: what it holds is the document
+	imp := carapace.ActionImport([]byte(doc))
+	invokeSafe(imp.Suffix("+").Prefix("p").Style("red").Suppress(".*"), carapace.Context{})
+	importedAgain := invokeSafe(imp, carapace.Context{})
 	if in.Execute && in.Via == "shell" {
 		// the same completion served by an embedded command and fetched with ActionExecute
 		cmd := &cobra.Command{Use: "emb", Run: func(*cobra.Command, []string) {}}
 		carapace.Gen(cmd).PositionalAnyCompletion(carapace.VerifAction(meta, values))
 		imported = invokeSafe(carapace.ActionExecute(cmd), carapace.Context{Args: []string{"x"}}) // second position: no sub-command names mixed in
 	}
-	return map[string]interface{}{"doc": doc, "version": probe.Version, "imported": imported}
+	return map[string]interface{}{"doc": doc, "version": probe.Version, "imported": imported, "importedAgain": importedAgain}
 }
 
 func genExportRT(r *rng, tier string) interface{} {
@@ -99,6 +109,9 @@ func genExportRT(r *rng, tier string) interface{} {
 		in.Meta.Messages = append(in.Meta.Messages, text(10))
 	}
 	in.Meta.Nospace = pick(r, []string{"", "/", "/=", "*", "é", "\"\\", "\x01", "\x7f/", "\v", "\U000f0000", "\u2028"})
+	if in.Via == "shell" && r.chance(20) {
+		in.EnvNospace = pick(r, []string{"/", ",/=", "*", ":"})
+	}
 	if in.Via == "shell" && r.chance(35) {
 		in.Execute = true
 		if r.chance(15) && len(in.Values) > 0 {
